@@ -92,7 +92,22 @@ func compactSpec(raw json.RawMessage) json.RawMessage {
 
 // probes that must have fired at least once in a check's batch (DESIGN 2.6): a probe stuck at
 // zero means the workload or fault mix must change - reported as harness trouble, not success.
-var requiredProbes = map[string][]string{}
+var requiredProbes = map[string][]string{
+	"C01": {"c01_promotion_checked", "c01_attempt_froze_two_or_more"},
+	"C02": {"final_state_canonical"},
+	"C03": {"c03_acquire_true", "c03_manager_write_checked", "c03_explicit_release_checked"},
+	"C04": {"c04_postcondition_checked", "c04_eviction_published"},
+	"C05": {"c05_auto_failover_filed", "c05_suspicious_master_iteration"},
+	"C06": {"c06_attempt_started", "c06_terminal_ok", "c06_terminal_rejected"},
+	"C07": {"crash_point_fired", "c01_promotion_checked"},
+	"C08": {"c08_fenced", "c08_class_must_not_touch"},
+	"C10": {"c10_converged", "c10_stale_master_repointed"},
+	"C11": {"c11_recovery_mark_cleared", "c11_resetup_file_written"},
+	"C15": {"c15_get_ok", "c15_set_ok"},
+	"C17": {"c17_lag_offline_within_cap", "c17_broken_replica_set_offline", "c17_online_with_resetup_status_checked", "c17_master_set_online"},
+	"C18": {"c18_master_set_read_only", "c18_master_set_writable"},
+	"C20": {"c20_steady_run_measured"},
+}
 
 func (a *agg) missingProbes(id string) []string {
 	var miss []string
